@@ -1,11 +1,10 @@
 ------------------------------ MODULE AseTypes ------------------------------
 (* Vocabulary shared by all asefile specification modules.                    *)
-EXTENDS Integers, Sequences, FiniteSets, TLC
+EXTENDS Integers, Sequences, FiniteSets, TLC, AseArith
 
 Byte == 0..255
 
-\* C-style truncating division (TLA+ \div floors)
-TDiv(a, b) == IF a >= 0 THEN a \div b ELSE -((-a) \div b)
+\* TDiv (C-style truncating division) comes from AseArith
 CeilDiv(a, b) == (a + b - 1) \div b
 Min2(a, b) == IF a < b THEN a ELSE b
 Max2(a, b) == IF a > b THEN a ELSE b
